@@ -6,7 +6,7 @@ import gen, s4, lang, findings, hdstruct, meta
 from props import c01
 
 PROP_FILE = 'Props/C04.v'
-GROUPS = ['imain', 'headform', 'headranges']
+GROUPS = ['imain', 'headform', 'headranges', 'reps']
 LEAF_LEMMAS = []
 ASSUMPTIONS = ['gringo/clasp contract G1-G6 (DESIGN.md 5.3)',
                'exactness of the head translation (no answer set added, none lost) is a theorem for programs whose rest is splittable (bodies over present and past, heads in the present or future; C04_translation_exact, C04_rules_splittable); next to look-ahead constraints it is covered by the correspondence with the oracle only (a test)', 'symbolic (variable) time ranges of non-ground head formulas are not modelled (C06 / C15 run them)']
